@@ -322,6 +322,9 @@ def jobs(tier, seed):
                     continue
                 out.append({"harness": "rpms_step", "params": {"pre": pre, "nevra_i": ni, "srpm_i": si, "variant": "Server" if (ni + si) % 2 else "Client",
                                                               "arch_kind": "symbolic" if (ni + si) % 3 == 0 else "x86_64"}})
+    # further adds into the source package that exists already (the same RPM again, a sibling sub-package, the SRPM itself)
+    for ni, si in ((0, 1), (1, 1), (3, 0)):
+        out.append({"harness": "rpms_step", "params": {"pre": 2, "nevra_i": ni, "srpm_i": si, "variant": "Server", "arch_kind": "x86_64"}})
     n = 8 if big else 5
     for nparts in (2, 3, 4):
         for wd in (False, True):
